@@ -620,7 +620,7 @@ def _count_by(items, key):
 # --------------------------------------------------------------------------- compiler witnesses
 
 
-def compile_witness(text, compiler="g++", extra_flags=(), config="core", name="w.cpp", max_errors=0):
+def compile_witness(text, compiler="g++", extra_flags=(), config="core", name="w.cpp", max_errors=0, clang_default_openmp=False):
     """-fsyntax-only compile of a generated TU with the repository's flags; returns (rc, stderr)"""
     d = scratch()
     path = os.path.join(d, name)
@@ -629,7 +629,7 @@ def compile_witness(text, compiler="g++", extra_flags=(), config="core", name="w
     if compiler == "g++":
         cmd = ["g++"] + GXX_FLAGS + ["-fmax-errors=%d" % max_errors]
     else:
-        cmd = ["clang++", "-std=gnu++17", "-fopenmp", "-fopenmp-version=45", "-ferror-limit=%d" % max_errors]
+        cmd = ["clang++", "-std=gnu++17", "-fopenmp"] + ([] if clang_default_openmp else ["-fopenmp-version=45"]) + ["-ferror-limit=%d" % max_errors]
     cmd += config_flags(config) + ["-fsyntax-only", "-w"] + list(extra_flags) + [path]
     p = subprocess.run(cmd, stdout=subprocess.PIPE, stderr=subprocess.PIPE, universal_newlines=True)
     return p.returncode, p.stderr
